@@ -192,7 +192,7 @@ def stress_family(tier, seed, prop):
 
 GRAVEYARD_MUTANTS = [("MCGraveyard_ignoreZero.cfg", "Inv_C08_Retain"), ("MCGraveyard_keepOnReinsert.cfg", "Inv_C08_NoTombstoneOfLive"),
                      ("MCGraveyard_markSnapshot.cfg", "Inv_C08_Retain"), ("MCGraveyard_reuseRevision.cfg", "Inv_C07_Converge"),
-                     ("MCGraveyard_closeNoTrigger.cfg", "Live_C08_Drain")]
+                     ("MCGraveyard_closeNoTrigger.cfg", "Live_C08_Drain"), ("MCGraveyard_dropTriggerAfterPass.cfg", "Live_C08_Drain")]
 
 
 def graveyard_design(tier):
@@ -485,8 +485,10 @@ PROPS = {
     "C03": _db_prop("C03", "c03", 400, 8000,
                     "Insert/InsertWatch/Modify/Delete/DeleteAll/CompareAndSwap/CompareAndDelete with guards "
                     "{current, stale, future}, missing and present objects, tables not held, finished transactions; "
-                    "replies, errors and the state after rejected operations are compared; non-trivial = >= 2 writes",
-                    _nt_write, extra_modes=(("kf_n", 20, 100),), tlc_gen=True),
+                    "replies, errors and the state after rejected operations are compared; families c07/gcwindow: the same "
+                    "writes while change iterators are registered (deleted objects are then kept as tombstones that a "
+                    "later write of the key meets); non-trivial = >= 2 writes",
+                    _nt_write, extra_modes=(("kf_n", 20, 100), ("c07", 150, 3000), ("gcwindow", 80, 1500)), tlc_gen=True),
     "C04": _db_prop("C04", "c04", 250, 5000,
                     "complete query battery (Get/List/Prefix/LowerBound/All/NumObjects/ByRevision on primary, unique, "
                     "multi-key, LPM unique/non-unique indexes; keys empty, prefixes of one another, 0x00/0x01/0xff) on "
